@@ -106,7 +106,7 @@ def run(tier):
         conform(cfg, ["prims-vectors", vf, o])
         _merge(ck, json.load(open(o)), "" if cfg == "stable" else "[%s] " % cfg)
     nproc = min(12, NCPU)
-    for s in range(10 if thorough else 1):
+    for s in range(80 if thorough else 1):
         reps = parallel("stable", lambda o, k, n: ["prims-sweep-c07", o, ck.seed + s, 1100, k, n], nproc, os.path.join(wd, "sweep"))
         for rep in reps:
             _merge(ck, rep, "")
